@@ -489,6 +489,16 @@ class OB:
         self.trusted("log-normalisation rewriter (lg(ab) = lg a + lg b, lg(a/b) = lg a - lg b, lg(10**u) = u on terms whose atoms are proved positive)")
         return A == B
 
+    def instance(self, lemma, *subst):
+        """instance of a lemma that was proved in this generator from NO hypotheses (only=[]), hence universally valid in its free constants:
+        substituting terms for constants gives a valid formula, which is added to the hypotheses"""
+        ok = [it for it in self.items if it.expect == 'proved' and it.goal.get_id() == _z(lemma).get_id() and len(it.hyps) == 0]
+        if not ok:
+            raise ValueError("instance(): the lemma is not an earlier goal proved without hypotheses")
+        inst = z3.substitute(lemma, *subst)
+        self.hyps.append(inst)
+        return inst
+
     def hint(self, which, facts, hide_nonlinear=False):
         """use already proved facts (goals of earlier items / hypotheses) when discharging engine-generated side
         obligations whose label contains `which`; optionally hide the nonlinear hypotheses from the solver"""
@@ -597,9 +607,120 @@ def check_sat(assertions, timeout_ms=None, want_model=False, use_cvc5=True):
     return 'unknown', None, 'none', time.time() - t0
 
 
-def poly_identity(hyps, goal):
-    """sympy back end for goals of the form lhs == rhs that are rational-function identities"""
-    raise NotImplementedError
+def _implied(hyps, cond, timeout=1500):
+    s = z3.Solver()
+    s.set('timeout', timeout)
+    for h in hyps:
+        s.add(h)
+    s.add(z3.Not(cond))
+    return s.check() == z3.unsat
+
+
+def sympy_identity(hyps, goal, time_limit=60):
+    """sympy back end for equalities between terms built from + - * / 10**u log10 sqrt and ite: constants get sign assumptions that z3 derives
+    from the hypotheses, ite conditions are resolved by z3 under the hypotheses, then lhs - rhs is simplified to 0 (powsimp / expand).
+    Returns True (identity established), False (could not) - never a refutation."""
+    import sympy as sp
+    if not z3.is_eq(goal):
+        return False
+    lhs, rhs = goal.arg(0), goal.arg(1)
+    simple_hyps = [h for h in hyps if not has_quantifier([h])]
+    syms = {}
+
+    def const(c):
+        name = c.decl().name()
+        if name not in syms:
+            if name == 'LN10':
+                syms[name] = (sp.log(10), 1)
+            elif _implied(simple_hyps, c > 0):
+                syms[name] = (sp.Symbol(name.replace('!', '_'), positive=True), 1)
+            elif _implied(simple_hyps, c < 0):
+                syms[name] = (sp.Symbol(name.replace('!', '_') + '_neg', positive=True), -1)
+            else:
+                syms[name] = (sp.Symbol(name.replace('!', '_'), real=True), 1)
+        sym_, sg = syms[name]
+        return sg * sym_
+
+    cache = {}
+
+    def conv(t):
+        k = t.get_id()
+        if k in cache:
+            return cache[k]
+        r = conv_(t)
+        cache[k] = r
+        return r
+
+    def conv_(t):
+        if z3.is_int_value(t):
+            return sp.Integer(t.as_long())
+        if z3.is_rational_value(t):
+            return sp.Rational(t.numerator_as_long(), t.denominator_as_long())
+        if not z3.is_app(t):
+            raise ValueError('quantifier')
+        kind = t.decl().kind()
+        ch = t.children()
+        if kind == z3.Z3_OP_UNINTERPRETED:
+            if t.decl().arity() == 0:
+                return const(t)
+            name = t.decl().name()
+            if name == 'ex':
+                return sp.exp(conv(ch[0]) * sp.log(10))
+            if name == 'lg':
+                return sp.log(conv(ch[0])) / sp.log(10)
+            if name == 'sq':
+                return sp.sqrt(conv(ch[0]))
+            raise ValueError(f'uninterpreted {name}')
+        if kind == z3.Z3_OP_ADD:
+            return sp.Add(*[conv(c) for c in ch])
+        if kind == z3.Z3_OP_SUB:
+            r = conv(ch[0])
+            for c in ch[1:]:
+                r = r - conv(c)
+            return r
+        if kind == z3.Z3_OP_UMINUS:
+            return -conv(ch[0])
+        if kind == z3.Z3_OP_MUL:
+            return sp.Mul(*[conv(c) for c in ch])
+        if kind == z3.Z3_OP_DIV:
+            return conv(ch[0]) / conv(ch[1])
+        if kind == z3.Z3_OP_POWER:
+            return conv(ch[0]) ** conv(ch[1])
+        if kind == z3.Z3_OP_TO_REAL:
+            return conv(ch[0])
+        if kind == z3.Z3_OP_ITE:
+            if _implied(simple_hyps, ch[0]):
+                return conv(ch[1])
+            if _implied(simple_hyps, z3.Not(ch[0])):
+                return conv(ch[2])
+            raise ValueError('undetermined ite')
+        raise ValueError(f'operator {t.decl().name()}')
+
+    try:
+        d = conv(lhs) - conv(rhs)
+    except ValueError:
+        return False
+    import signal
+
+    class _TO(Exception):
+        pass
+
+    def handler(signum, frame):
+        raise _TO()
+    old = signal.signal(signal.SIGALRM, handler)
+    signal.alarm(time_limit)
+    try:
+        for strat in (lambda e: sp.expand(sp.expand_log(e, force=True)),
+                      lambda e: sp.powsimp(sp.expand(sp.expand_log(e, force=True)), force=True),
+                      lambda e: sp.simplify(sp.powsimp(sp.expand(sp.expand_log(e, force=True)), force=True))):
+            if strat(d) == 0:
+                return True
+        return False
+    except _TO:
+        return False
+    finally:
+        signal.alarm(0)
+        signal.signal(signal.SIGALRM, old)
 
 
 def discharge(item, second_solver=False):
@@ -608,6 +729,17 @@ def discharge(item, second_solver=False):
     axioms = sym.instantiate_axioms(fs, pairs=getattr(item, 'pairs', True))
     neg = z3.Not(item.goal)
     assertions = list(item.hyps) + axioms + [neg]
+    if item.kind == 'deriv' or getattr(item, 'poly', False):
+        # derivative / power-algebra identities: computer algebra first (fast and stable), the SMT ladder only if that does not settle it
+        t0 = time.time()
+        try:
+            ok = sympy_identity(item.hyps, item.goal)
+        except Exception:   # noqa
+            ok = False
+        if ok:
+            return {'name': item.name, 'kind': item.kind, 'backend': 'sympy', 'time_s': round(time.time() - t0, 4), 'lineno': item.lineno,
+                    'note': item.note, 'expect': item.expect, 'n_axioms': 0, 'verdict': 'proved',
+                    'sha': hashlib.sha256(smt2_text(assertions).encode()).hexdigest()[:16]}
     status, model, backend, secs = check_sat(assertions)
     res = {'name': item.name, 'kind': item.kind, 'backend': backend, 'time_s': round(secs, 4), 'lineno': item.lineno,
            'note': item.note, 'expect': item.expect, 'n_axioms': len(axioms)}
@@ -703,7 +835,7 @@ def run_generator(prop, name, second_solver=False):
             r['goal'] = str(z3.simplify(it.goal))[:400] if it.goal is not None else ''
             r['n_hyps'] = len(it.hyps)
             r['has_replay'] = it.replay is not None
-            if r['verdict'] == 'refuted' and it.replay is not None and it.expect == 'proved':
+            if r['verdict'] in ('refuted', 'undecided') and it.replay is not None and it.expect == 'proved':
                 try:
                     r['replay'] = it.replay(it, r.get('model') or {})
                 except Exception as e:   # noqa
